@@ -20,14 +20,22 @@ pub struct Case {
     pub ctrls: Option<Vec<RCtl>>,
     pub forms: Vec<u8>,
     pub id: i32,
+    /// searchDone only (e2e lane): go through search() and let the server send these reference messages first
+    #[serde(default)]
+    pub conv_refs: Option<Vec<Vec<String>>>,
 }
 
 fn strat(_: &Ctx) -> BoxedStrategy<Case> {
-    (respgen::any_result_resp(false), respgen::opt_controls(4), gens::forms(), 1i32..=i32::MAX).prop_map(|(resp, ctrls, forms, id)| Case { resp, ctrls, forms, id }).boxed()
+    (respgen::any_result_resp(false), respgen::opt_controls(4), gens::forms(), 1i32..=i32::MAX).prop_map(|(resp, ctrls, forms, id)| Case { resp, ctrls, forms, id, conv_refs: None }).boxed()
 }
 
 fn small_strat(_: &Ctx) -> BoxedStrategy<Case> {
-    (respgen::any_result_resp(true), respgen::opt_controls(3), gens::forms(), Just(1i32)).prop_map(|(resp, ctrls, forms, id)| Case { resp, ctrls, forms, id }).boxed()
+    (respgen::any_result_resp(true), respgen::opt_controls(3), gens::forms(), Just(1i32), proptest::option::weighted(0.5, proptest::collection::vec(proptest::collection::vec(respgen::uri(), 1..3), 0..3)))
+        .prop_map(|(resp, ctrls, forms, id, conv_refs)| {
+            let conv_refs = if matches!(resp, Resp::Result { app: 5, .. }) { conv_refs } else { None };
+            Case { resp, ctrls, forms, id, conv_refs }
+        })
+        .boxed()
 }
 
 pub fn compare_res(got: &LdapResult, want: &Res) -> Result<(), Fail> {
@@ -148,6 +156,7 @@ pub fn check_e2e(c: &Case, obs: &mut Obs) -> Result<(), Fail> {
     let Resp::Result { app, res, sasl: _, exop_name, exop_val } = &c.resp else { fail!("harness-c03", "not a result") };
     let app = *app;
     let cc = c.clone();
+    let c_conv = c.conv_refs.is_some();
     let out = sim::run_sim(c.id as u64, async move {
         let conn = sim::connect();
         let wire = conn.wire.clone();
@@ -158,7 +167,12 @@ pub fn check_e2e(c: &Case, obs: &mut Obs) -> Result<(), Fail> {
                         if m.req.response_tag().is_some() {
                             let msg = RespMsg { id: m.id, resp: cc.resp.clone(), ctrls: cc.ctrls.clone() };
                             quiesce().await;
-                            wire.push(&msg.encode_forms(&cc.forms));
+                            let mut bytes = Vec::new();
+                            for uris in cc.conv_refs.iter().flatten() {
+                                bytes.extend_from_slice(&RespMsg::new(m.id, Resp::Reference(uris.clone())).encode_forms(&cc.forms));
+                            }
+                            bytes.extend_from_slice(&msg.encode_forms(&cc.forms));
+                            wire.push(&bytes);
                         }
                     }
                     Recv::Closed => break,
@@ -167,8 +181,10 @@ pub fn check_e2e(c: &Case, obs: &mut Obs) -> Result<(), Fail> {
             }
         });
         let mut ldap = conn.ldap.clone();
+        let c2_conv = c_conv;
         let got = match app {
             1 => ldap.simple_bind("cn=x", "pw").await.map(Got::Plain),
+            5 if c2_conv => ldap.search("dc=x", Scope::Base, "(a=b)", vec!["a"]).await.map(|r| Got::Plain(r.1)),
             5 => match ldap.streaming_search("dc=x", Scope::Base, "(a=b)", vec!["a"]).await {
                 Ok(mut s) => match s.next().await {
                     Ok(None) => Ok(Got::Plain(s.finish().await)),
@@ -204,7 +220,22 @@ pub fn check_e2e(c: &Case, obs: &mut Obs) -> Result<(), Fail> {
         Got::Exop(e, r) => (r, Some(e)),
         Got::Failed(e) => fail!("c03:e2e-failed", "operation failed with {} on a well-formed response {:?}", e, c.resp),
     };
-    compare_res(&lr, res)?;
+    if let Some(rm) = &c.conv_refs {
+        // search(): the referral list handed to the caller is the result's own list plus the URIs of the
+        // reference messages (as a multiset); every other field is the server's
+        let mut want = res.clone();
+        let mut all: Vec<String> = res.refs.clone().unwrap_or_default();
+        all.extend(rm.iter().flatten().cloned());
+        let mut got_refs = lr.refs.clone();
+        got_refs.sort();
+        all.sort();
+        ensure!(got_refs == all, "c03:refs", "search() referral list {:?}; the server encoded {:?} in the result and {:?} in reference messages", lr.refs, res.refs, rm);
+        want.refs = Some(lr.refs.clone());
+        compare_res(&lr, &want)?;
+        obs.label("search()-with-reference-messages");
+    } else {
+        compare_res(&lr, res)?;
+    }
     let empty = vec![];
     compare_resp_controls(&lr.ctrls, c.ctrls.as_ref().unwrap_or(&empty)).map_err(|f| Fail::new(format!("c03:ctrls/{}", f.sig), f.msg))?;
     if let Some(e) = ex {
